@@ -17,7 +17,9 @@ import (
 var namePool = []string{"a", "a.txt", "a b", "a-", "a0", "b", "B", "Z", "_x", "x.y.z", "readme.md", "00", "zz", "#1", "~t",
 	"caf\xc3\xa9", "a-name-that-is-rather-long-0123456789", "c", "d", "e.bin", "f", ".h", ".hid", "..x",
 	// names a user may give that look like the server's partial-data names
-	"a.incomplete", "m.incomplete", "n.incomplete.y", "x.incomplete.tar"}
+	"a.incomplete", "m.incomplete", "n.incomplete.y", "x.incomplete.tar",
+	// children named like the requested folder (the driver calls it F or, every third run, like the file root: root)
+	"F", "root"}
 
 type gnode struct {
 	path []string
